@@ -282,7 +282,7 @@ def effect_job(name, n, T, C, metric, layout, tails_seq, twin=False,
 
     def case_fn(model, nm):
       case = dict(kind='effect', n=n, T=T, C=C, metric=metric, layout=layout,
-                  tails_seq=list(tails_seq), clause=nm)
+                  tails_seq=list(tails_seq), clause=nm, refit=refit)
       if model is not None:
         def val(v):
           if not isinstance(v, SNum):
@@ -311,7 +311,7 @@ def effect_job(name, n, T, C, metric, layout, tails_seq, twin=False,
 
 # ---- concrete oracle --------------------------------------------------------
 def concrete_effect(n, T, C, metric, tails_seq, cells, cost, pre, ctl, level,
-                    rtol=1e-6):
+                    rtol=1e-6, refit=False):
   import scipy.stats as ss
   from matched_markets.methodology import tbr_iroas as IR
   days = T + C
@@ -320,6 +320,20 @@ def concrete_effect(n, T, C, metric, tails_seq, cells, cost, pre, ctl, level,
         float(v)))
   df = c07.frame(cells, cost, n, T, C, cost_pre=pre, cost_ctl=ctl)
   m = IR.TBRiROAS(use_cooldown=True)
+  if refit:
+    # same object fitted before on a frame of the other cost scenario
+    was_fixed = not pre and not ctl
+    pre0 = None if not was_fixed else (PRE_CC[:n], PRE_CT[:n])
+    ctl0 = None if not was_fixed else {d: 1.5 for d in range(n, n + T)}
+    cells0 = {k: 7.0 + 0.5 * k[1] + (2.0 * k[1] if k[0] == 'y' else 0.0)
+              for k in cells}
+    m.fit(c07.frame(cells0, {d: 2.0 for d in cost}, n, T, C, cost_pre=pre0,
+                    cost_ctl=ctl0))
+    try:
+      m.estimate_pointwise_and_cumulative_effect('tbr_cost', level=0.8,
+                                                 tails=2)
+    except ValueError:
+      pass
   m.fit(df)
   out = None
   for tails in tails_seq:
@@ -333,6 +347,8 @@ def concrete_effect(n, T, C, metric, tails_seq, cells, cost, pre, ctl, level,
   outside = sum(pre[0]) + sum(pre[1]) if pre else 0.0
   outside += sum(ctl.values()) if ctl else 0.0
   is_fixed = outside < 1e-10
+  if bool(m._is_fixed_cost_scenario()) != is_fixed:
+    bad.append('scenario')
   if metric == 'tbr_response':
     treat = [cells['y', d] for d in range(n + days)]
     ctrl = [cells['x', d] for d in range(n + days)]
@@ -513,21 +529,26 @@ def replay(case):
   if case.get('cells') is None:
     return dict(violates=False, detail='structural clause without concrete '
                 'witness: %s' % case.get('clause'))
-  cells = {tuple([kk.split(',')[0], int(kk.split(',')[1])]): float(v)
+  num = lambda v: v if isinstance(v, int) else float(v)   # keep int dtype
+  cells = {tuple([kk.split(',')[0], int(kk.split(',')[1])]): num(v)
            for kk, v in case['cells'].items()}
-  cost = {int(d): float(v) for d, v in case['cost'].items()}
+  cost = {int(d): num(v) for d, v in case['cost'].items()}
   pre = case.get('pre')
-  ctl = {int(d): float(v) for d, v in case['ctl'].items()} if case.get(
+  ctl = {int(d): num(v) for d, v in case['ctl'].items()} if case.get(
       'ctl') else None
   lvl = min(max(case['level'], 0.5), 1 - 1e-6)
   try:
     bad = concrete_effect(case['n'], case['T'], case['C'], case['metric'],
-                          case['tails_seq'], cells, cost, pre, ctl, lvl)
+                          case['tails_seq'], cells, cost, pre, ctl, lvl,
+                          refit=bool(case.get('refit')))
   except Exception as e:  # pylint: disable=broad-except
     return dict(violates=True, key='C18:exception:%s' % type(e).__name__,
                 detail=repr(e))
   if not bad:
     return dict(violates=False, detail='report well-formed on the witness')
+  other = [b for b in bad if not b.startswith(('raises:', 'ordering'))]
+  if other:
+    bad = other + [b for b in bad if b not in other]
   if bad[0].startswith('raises:') or bad[0].startswith('ordering'):
     # qualitative class of the input: does the cumulative posterior scale
     # shrink between analysed days?  (the known finding needs that)
